@@ -482,12 +482,7 @@ func checkC13(p *Prog, r *Report) {
 		}
 		r.Check(ok, "abortIO aborts a blocked write through the handle before closing it", p.Pos(f.Body.Pos()), "c.conn.(writeAborter).abortWrite() then c.conn.Close()", "Agent.Close no longer aborts a write blocked on the shared socket (or closes the handle first): the loop waits for the blocked task")
 	}
-	if f := p.Fn("sharedPacketConn.abortWrite"); r.Anchor("sharedPacketConn.abortWrite", f != nil) {
-		r.Check(len(p.CallsTo(f, false, "ice.writeAborter.abortWrite")) == 1, "handle forwards the abort to the shared connection", p.Pos(f.Body.Pos()), "underlying.(writeAborter).abortWrite()", "the handle's abortWrite does not reach the shared connection")
-	}
-	if f := p.Fn("udpMuxedConn.abortWrite"); r.Anchor("udpMuxedConn.abortWrite", f != nil) {
-		r.Check(len(p.CallsTo(f, false, "ice.UDPMuxDefault.abortWrite")) == 1, "muxed connection forwards the abort to the mux", p.Pos(f.Body.Pos()), "Mux.abortWrite()", "the muxed connection's abortWrite does not reach the mux")
-	}
+	checkAbortForwarding(p, r)
 
 	// ---- R13.6 exhaustive clean-up / migration loops ----
 	r.Rule("R13.6", "The loops that must treat every element of a collection do so: no early exit, and no path through an iteration that skips the operation (mux close and packet-connection close reach every element).", 3)
@@ -496,6 +491,38 @@ func checkC13(p *Prog, r *Report) {
 	// ---- R13.7 a claimed TCP packet connection is not closed underneath its handles ------------------------
 	r.Rule("R13.7", "The provisional-lifetime timer of a TCP packet connection is armed only by the constructor and afterwards only stopped: once a handle has claimed the connection, nothing can re-arm the timer that would close it with references outstanding.", 3)
 	checkAliveTimerDiscipline(p, r)
+
+	// ---- R13.8 the write-section protocol never parks ---------------------------------------------------------
+	r.Rule("R13.8", "The functions that operate on the shared write-section state word (enter, leave, abort, clear) contain no operation that can block indefinitely — no channel receive / send, no select without default, no WaitGroup wait: a writer held back by an abort polls the state word and its own context, so the end of an abort needs no wake-up that a writer arriving at the wrong moment could miss (a missed wake-up leaves that user's write stuck although the socket is usable again).", 4)
+	{
+		n := 0
+		for _, f := range p.AllFuncs {
+			if f.Pkg != p.Ice || f.Body == nil {
+				continue
+			}
+			uses := false
+			walkBody(f, func(x ast.Node) bool {
+				if c, ok := x.(*ast.CallExpr); ok {
+					if sel, ok := unparen(c.Fun).(*ast.SelectorExpr); ok && p.IsField(sel.X, "UDPMuxDefault.writeState") {
+						uses = true
+					}
+				}
+				return true
+			})
+			if !uses {
+				continue
+			}
+			n++
+			var sites []string
+			for _, b := range p.blockingSites(f) {
+				sites = append(sites, b.desc+" at "+p.Pos(b.node.Pos()))
+			}
+			r.Check(len(sites) == 0, "write-section function "+f.Name+" does not park", p.Pos(f.Body.Pos()), "no blocking operation", "the function can block on "+strings.Join(sites, "; ")+": whoever ends the abort has to wake it, and a writer that reads the state word just before the wake-up and parks just after it is never woken")
+		}
+		if n < 4 {
+			r.Fail("write-section functions", "udp_mux.go", fmt.Sprintf("only %d functions operate on the write-section state word (rule instance lost)", n))
+		}
+	}
 }
 
 // abortOnlyGuardedByAssertion: the only branch conditions dominating call are
@@ -526,4 +553,26 @@ func (p *Prog) abortOnlyGuardedByAssertion(f *Func, call *ast.CallExpr) bool {
 		}
 	}
 	return true
+}
+
+// calledOnEveryPath: every path from f's entry to its exit executes call.
+func (p *Prog) calledOnEveryPath(f *Func, call *ast.CallExpr) bool {
+	g := p.CFG(f)
+	_, escapes := g.PathAvoiding(Loc{g.Entry, 0}, func(n ast.Node) bool {
+		return p.nodeHasCall(n, func(x *ast.CallExpr) bool { return x == call })
+	}, func(b *Block) bool { return b == g.Exit }, nil)
+	return !escapes
+}
+
+// checkAbortForwarding: the abort of a blocked shared write is forwarded, on every path, from the handle
+// to the muxed connection to the mux (shared by C13 R13.4 and C08 R8.15).
+func checkAbortForwarding(p *Prog, r *Report) {
+	if f := p.Fn("sharedPacketConn.abortWrite"); r.Anchor("sharedPacketConn.abortWrite", f != nil) {
+		cs := p.CallsTo(f, false, "ice.writeAborter.abortWrite")
+		r.Check(len(cs) == 1 && (p.calledOnEveryPath(f, cs[0]) || p.abortOnlyGuardedByAssertion(f, cs[0])), "handle forwards the abort to the shared connection", p.Pos(f.Body.Pos()), "underlying.(writeAborter).abortWrite(), whenever the underlying connection supports it", "the handle's abortWrite does not reach the shared connection on every path (a condition other than the type assertion decides)")
+	}
+	if f := p.Fn("udpMuxedConn.abortWrite"); r.Anchor("udpMuxedConn.abortWrite", f != nil) {
+		cs := p.CallsTo(f, false, "ice.UDPMuxDefault.abortWrite")
+		r.Check(len(cs) == 1 && p.calledOnEveryPath(f, cs[0]), "muxed connection forwards the abort to the mux", p.Pos(f.Body.Pos()), "Mux.abortWrite() on every path", "the muxed connection's abortWrite does not reach the mux on every path: a write that is blocked in the shared socket through a path its bookkeeping does not see is not aborted, and Close waits for it forever")
+	}
 }
